@@ -577,6 +577,7 @@ namespace photon
         {
             assert(this == th->vcpu);
             SCOPED_LOCK(standbyq.lock);
+            PHOTON_VERIF_LS(LS_STANDBY_PUSH, th, &standbyq.lock, &th->lock);
             standbyq.push_back(th);
         }
 
@@ -727,15 +728,20 @@ namespace photon
         if (waitq) {
             assert(waitq->front());
             SCOPED_LOCK(waitq->lock);
+            PHOTON_VERIF_LS(LS_WAITQ_ERASE, waitq, &waitq->lock, &this->lock);
             waitq->erase(this);
             waitq = nullptr;
         } else {
             assert(this->single());
         }
+        PHOTON_VERIF_LS(LS_TH_DEQUEUE, this, &this->lock, 0);
         state = newstat;
     }
 
     __thread thread* CURRENT;
+#ifdef PHOTON_VERIF
+    extern "C" { void (*photon_verif_ls_cb)(int id, const void* obj, const void* l1, const void* l2) = nullptr; }
+#endif
 
     static void spinlock_unlock(void* m_);
 
@@ -1002,6 +1008,7 @@ R"(
         // thread in run-queue. To keep going, wake up waiter before remove
         // current from run-queue.
         lock.lock();
+        PHOTON_VERIF_LS(LS_TH_DONE, this, &this->lock, 0);
         state = states::DONE;
         cond.notify_one();
         get_vcpu()->nthreads--;
@@ -1292,6 +1299,7 @@ R"(
         if ((list.node = standbyq.eject_whole_atomic())) {
             for (auto th: list) {
                 assert(th->state == states::STANDBY);
+                PHOTON_VERIF_LS(LS_STANDBY_DRAIN, th, 0, 0);
                 th->state = states::READY;
                 sleepq.pop(th);
                 count++;
@@ -1307,6 +1315,7 @@ R"(
             if (th->ts_wakeup > now) break;
             SCOPED_LOCK(th->lock);
             sleepq.pop_front();
+            PHOTON_VERIF_LS(LS_TH_TIMEOUT, th, &th->lock, 0);
             if (likely(th->state == states::SLEEPING)) {
                 th->dequeue_ready_atomic();
                 list.push_back(th);
@@ -1383,8 +1392,10 @@ insert_list:
         SCOPED_LOCK(waitq_lock, ((bool) waitq) * 2);
         SCOPED_LOCK(rq.current->lock);
         assert(!AtomicRunQ(rq).single());
+        PHOTON_VERIF_LS(LS_TH_SLEEP, rq.current, &rq.current->lock, waitq_lock);
         auto sw = AtomicRunQ(rq).remove_current(states::SLEEPING);
         if (waitq) {
+            PHOTON_VERIF_LS(LS_WAITQ_PUSH, waitq, &waitq->lock, &rq.current->lock);
             waitq->push_back(sw.from);
             sw.from->waitq = waitq;
         }
@@ -1483,6 +1494,7 @@ insert_list:
         assert(th && th->state == states::SLEEPING);
         assert("th->lock is locked");
         assert(th != CURRENT);
+        PHOTON_VERIF_LS(LS_TH_INTERRUPT, th, &th->lock, 0);
         th->error_number = error_number;
         RunQ rq;
         if (unlikely(!rq.current || vcpu != rq.current->get_vcpu())) {
@@ -1822,6 +1834,7 @@ insert_list:
     {
         SCOPED_LOCK(m->splock);
         ScopedLockHead h(m);
+        PHOTON_VERIF_LS(LS_MUTEX_HANDOFF, m, &m->splock, ((thread*)h) ? &((thread*)h)->lock : nullptr);
         m->owner.store(unlikely(m->_contending) ? nullptr : (thread*)h);
         if (h)
             prelocked_thread_interrupt(h, -1);
@@ -1959,6 +1972,7 @@ insert_list:
             if (mc < count)
                 return false;
             auto new_mc = mc - count;
+            PHOTON_VERIF_LS(LS_SEM_SUB, this, &splock, 0);
             if (m_count.compare_exchange_strong(mc, new_mc))
                 return true;
         }
@@ -1989,6 +2003,7 @@ insert_list:
 #elif defined(__aarch64__) || defined(__arm64__)
         asm ("ror %0, %0, #63" : "+r"(op) : "r"(op));
 #endif
+        PHOTON_VERIF_LS(LS_RWLOCK_STATE, this, 0, 0);
         state += op;
         return 0;
     }
@@ -1996,6 +2011,7 @@ insert_list:
     {
         assert(state != 0);
         scoped_lock lock(mtx);
+        PHOTON_VERIF_LS(LS_RWLOCK_STATE, this, 0, 0);
         if (state>0)
             state --;
         else
